@@ -21,7 +21,9 @@
 (*   o.rej       sequence of reject sinks (empty without a rejects handle)                       *)
 (*     sink   = sequence over mates 1..o.mates of streams                                        *)
 (*     stream = [wf |-> the file is a whole number of 4-line records, recs |-> sequence of recs] *)
-(*     rec    = [id |-> input pair (0: not an input pair), s |-> strategy 1..K (0: unknown),     *)
+(*     rec    = [id |-> input pair (0: not an input pair), s |-> strategy 1..K (0: unknown; real  *)
+(*               records are never attributed: composite strategies emit the MX tag of the       *)
+(*               demultiplexer they delegate to, which can be another selected strategy),        *)
 (*               ok |-> the record itself is well formed ('@' header, |seq| = |qual|),           *)
 (*               faithful |-> bases and qualities equal the original mate   (reject recs only)   *)
 (*               reason   |-> a rejection reason tag is present              (reject recs only)] *)
@@ -88,9 +90,11 @@ POrder(o) ==
 PYields(o) ==
     /\ SumSeqF(o.yields, LAMBDA y : y) = NumRecs(o.tgt, 1)
     /\ Attributable(o.tgt, 1) => \A k \in 1 .. o.K : o.yields[k] = NumRecsS(o.tgt, 1, k)
+(* on a finished run: strategy k is credited with exactly the consumed pairs it demultiplexes *)
+PYieldsFinal(o) == \A k \in 1 .. o.K : o.yields[k] = Cardinality({ p \in 1 .. o.n : o.acc[p][k] })
 PProcessed(o) == o.processed = o.n
 PLog(o) == o.logged => o.logProcessed = o.processed /\ o.logYields = o.yields
-PCounters(o) == o.raised \/ (PYields(o) /\ PProcessed(o) /\ PLog(o))
+PCounters(o) == o.raised \/ (PYields(o) /\ PYieldsFinal(o) /\ PProcessed(o) /\ PLog(o))
 
 (* the sinks are FASTQ: whole 4-line records, '@' header, one quality per base                   *)
 PWellFormed(o) ==
